@@ -293,7 +293,7 @@ def _reader_after_k(k):
 
 def directed_sweep(ctx, rep, base, model_ok, next_id):
     """every read API × writer kind: a whole commit placed after each of the reader's gated operations in turn"""
-    stride = 1 if ctx.thorough else 2
+    stride = 1 if (ctx.thorough or ctx.intensify) else 2
     # same handle: read, a whole commit of each kind (incl. rolling the table back), read again
     for api in APIS:
         for wk in ("append", "delete", "multi", "delcur", "failed", "rollback", "dirfsync:hint"):
@@ -306,7 +306,7 @@ def directed_sweep(ctx, rep, base, model_ok, next_id):
                 rep.notes.append(f"between-reads case {api}/{wk} stuck: {e}")
     # the other way round: a whole read placed after each gated operation of a commit (incl. commits that fail half-way)
     for wk in ("append", "delete", "failed", "dirfsync:hint", "dirfsync:meta"):
-        for api in (APIS if ctx.thorough else ["scan", "row_count", "iter_records"]):
+        for api in (APIS if (ctx.thorough or ctx.intensify) else ["scan", "row_count", "iter_records"]):
             k = 0
             while True:
                 c = {"id": next_id, "start_empty": False, "writers": [wk], "readers": [[api]], "chooser": _reader_after_k(k)}
